@@ -39,8 +39,14 @@ def validateThickness (st : Rat ⊕ List Rat) (H : Rat) : Except String (List Ra
 def sliceLimits (ts : List Rat) : List (Rat × Rat) :=
   (List.zip (0 :: cumsumFrom 0 ts) (cumsumFrom 0 ts))
 
-/-- bin edges of `SliceIndexedAtoms`: cumulative thickness nudged down by ε -/
-def binEdges (ts : List Rat) : List Rat := (cumsumFrom 0 ts).map (· - nudgeEps)
+/-- `bin_edges[:-1] -= ε`: every edge but the last (the cell top) is nudged down -/
+def nudgeInit (ε : Rat) : List Rat → List Rat
+  | [] => []
+  | [x] => [x]
+  | x :: y :: rest => (x - ε) :: nudgeInit ε (y :: rest)
+
+/-- bin edges of `SliceIndexedAtoms`: cumulative thickness, all but the last nudged down by ε -/
+def binEdges (ts : List Rat) : List Rat := nudgeInit nudgeEps (cumsumFrom 0 ts)
 
 def nondecreasing : List Rat → Bool
   | a :: b :: rest => decide (a ≤ b) && nondecreasing (b :: rest)
@@ -68,6 +74,19 @@ def sliceIndex (ts : List Rat) (zs : List Rat) : Except String (List (List Nat))
   else if nonincreasing (binEdges ts) then
     .ok ((List.range ts.length).map fun l => (List.range zs.length).filter fun i => digitizeDec (binEdges ts) (zs.getD i 0) == l)
   else .error "value_error"
+
+/-- `bin_edges[-1] = max(bin_edges[-1], cell_z)`: the last edge is the cell top.  On the thickness list this is the same as
+stretching the last slice up to the top when the thicknesses sum short of the cell height `H`. -/
+def stretchLast (H : Rat) : List Rat → List Rat
+  | [] => []
+  | [t] => [t + (if H - t > 0 then H - t else 0)]
+  | t :: t' :: rest => t :: stretchLast (H - t) (t' :: rest)
+
+/-- slice label as the code computes it for a cell of height `H` -/
+def labelTop (ts : List Rat) (H z : Rat) : Nat := label (stretchLast H ts) z
+
+/-- `SliceIndexedAtoms._slice_index` for a cell of height `H` -/
+def sliceIndexTop (ts : List Rat) (H : Rat) (zs : List Rat) : Except String (List (List Nat)) := sliceIndex (stretchLast H ts) zs
 
 /-- `SlicedAtoms.get_atoms_in_slices(i)` (finite projection): atoms with `a_i - pad ≤ z < b_i + pad` -/
 def slicedMembers (ts : List Rat) (pad : Rat) (zs : List Rat) (i : Nat) : Except String (List Nat) :=
